@@ -11,4 +11,5 @@ Definition entry (cmd : Z) (args : list Z) : list Z :=
   if cmd =? 12 then entry_match_repush args else
   if cmd =? 13 then entry_events args else
   if cmd =? 30 then entry_computed args else
+  if cmd =? 40 then entry_parse args else
   [-999].
